@@ -253,6 +253,15 @@ int cmdReplay(int argc, char** argv) {
 		if (forkRun([&] { return runChunk(a, b); }, 120, why) != 0) {
 			// find the crashing call(s): one fork per case (what the crashed child had appended is dropped first)
 			cutBack(outPath, before);
+			if (crashes >= 8) {
+				// enough crashing calls have been pinned down one by one: record the chunk as a whole and go on
+				crashes++;
+				FILE* f = fopen(outPath.c_str(), "a");
+				fprintf(f, "{\"e\":\"crash\",\"case\":%zu,\"c\":{\"fn\":\"chunk\",\"from\":%zu,\"to\":%zu},\"why\":%s}\n", a, a, b, J::str(why).s.c_str());
+				fprintf(f, "{\"e\":\"stat\",\"cases\":%zu,\"variants\":0,\"mismatch\":0}\n", b - a - 1);
+				fclose(f);
+				continue;
+			}
 			for (size_t i = a; i < b; i++) {
 				std::string w2;
 				long b1 = fileSize(outPath);
